@@ -1049,9 +1049,12 @@ func execGrowth(sc *vmScenario, res *kernel.Result) {
 	h := &host{snapAt: map[int]string{}, formAt: map[int]int{}, depthAt: map[int]string{}}
 	installHost(env, h)
 	var first depthVec
+	firstMain, firstGlobals := 0, 0
+	// (the second run of a program may legitimately compile to a few more instructions than the first: redefinitions)
+	const secondMainSlack = 8
 	rep := sc.Repeat
-	if rep < 2 {
-		rep = 2
+	if rep < 3 {
+		rep = 3
 	}
 	for r := 0; r < rep; r++ {
 		for _, t := range texts {
@@ -1101,13 +1104,25 @@ func execGrowth(sc *vmScenario, res *kernel.Result) {
 				return
 			}
 		}
-		dv, _ := depthsOf(env)
+		dv, di := depthsOf(env)
+		// besides the stacks: the code the interpreter keeps for its main function and the number of names bound
+		// in the global scope (a program run again redefines its own names, it does not add any)
+		nGlobals := len(env.VerifGlobalNames())
 		if r == 0 {
 			first = dv
+			firstMain, firstGlobals = di.MainLen, nGlobals
 			continue
 		}
 		if dv != first {
 			fail("N-no-growth", "stacks", "after %d repetitions of %s the stacks are %+v, after the first %+v: an idle interpreter grows with the evaluations it has served", r+1, mustJSON(texts), dv, first)
+			return
+		}
+		if r >= 2 && di.MainLen > firstMain+secondMainSlack {
+			fail("N-no-growth", "main-code", "after %d repetitions of %s the interpreter holds %d instructions for its main function, after the first %d: the code of every evaluation ever served is kept", r+1, mustJSON(texts), di.MainLen, firstMain)
+			return
+		}
+		if nGlobals > firstGlobals {
+			fail("N-no-growth", "global-names", "after %d repetitions of %s the global scope binds %d names, after the first %d: every repetition adds names", r+1, mustJSON(texts), nGlobals, firstGlobals)
 			return
 		}
 	}
@@ -1347,11 +1362,11 @@ func init() {
 		Level:    "exploration",
 		Rule: "seeded fault-free programs over the full surface language including declarations (struct, func, method, interface, var, package, defmap, macros, range, go-style for-range, infix blocks) evaluated against one long-lived interpreter: " +
 			"at rest after every successful evaluation (four stacks, current function, pc); all-in-one vs seeded grouping vs one-at-a-time give the same final value, host-call trace and globals; empty inputs at seeded points return nil; " +
-			"a program repeated 2-60 times leaves the same stack depths after every repetition. distinct_nontrivial counts distinct (mode, grouping, declaration kinds present) signatures.",
+			"a program repeated 3-60 times leaves the same stack depths, the same amount of main-function code and the same number of global names after every repetition. distinct_nontrivial counts distinct (mode, grouping, declaration kinds present) signatures.",
 		Components: comps,
 		Assume: []string{
 			"macros are expanded when a text is compiled, so generated macro bodies are closed templates over their arguments",
-			"only the four stacks named in the property are measured; the main instruction buffer and the symbol table grow by design",
+			"growth is measured on the four stacks, the size of the main function's code and the number of global names; the symbol table grows with every new name a program interns and is not measured",
 		},
 		Parts: []*kernel.Part{
 			{Name: "grouping", Count: cnt(2500, 60000), Generate: genVMGrouping, Execute: execVM, Shrink: shrinkVM},
